@@ -189,6 +189,9 @@ def h(t, part):
         op, via, c, tgt, skip = pool[t.choice(len(pool))]
         cons = t.choice(nh + 1) if delayed else 0
         plan.append((op, via, c, tgt, skip, cons))
+    # two callback emits to the same client: its acknowledgements then come in order, in reverse order, or not at all
+    cb_targets = [o[2] for o in plan if o[0] == 1]
+    final_mode = t.choice(3) if (not delayed and len(cb_targets) >= 2 and len(set(cb_targets)) == 1) else 0
     # client 0 lives on host 0 (hosts are symmetric); the others anywhere
     placement = [0] + [t.choice(nh) for _ in range(NCLIENTS - 1)]
     with notrace():
@@ -221,11 +224,11 @@ def h(t, part):
                     if with_cb:
                         kw['callback'] = (lambda *a, cbs=cbs, tag=tag: cbs.append((tag, a)))
                     if side == 'single':
-                        ref.w.call(ref.w.s.emit(tag, {'k': k}, **kw))
+                        ref.w.call(ref.w.s.emit(tag, {'k': k, 'blob': {'b': b'raw'}}, **kw))
                     elif writer:
-                        cl.call(cl.writer.emit(tag, {'k': k}, namespace='/', room=kw['to'], skip_sid=kw['skip_sid']))
+                        cl.call(cl.writer.emit(tag, {'k': k, 'blob': {'b': b'raw'}}, namespace='/', room=kw['to'], skip_sid=kw['skip_sid']))
                     else:
-                        cl.call(cl.hosts[via].s.emit(tag, {'k': k}, **kw))
+                        cl.call(cl.hosts[via].s.emit(tag, {'k': k, 'blob': {'b': b'raw'}}, **kw))
             elif op in (2, 3, 5) and not alive[c]:
                 continue            # room operations on a client that has gone are outside the domain
             elif op == 2:
@@ -280,6 +283,27 @@ def h(t, part):
                     for p in b[i]:
                         if not isinstance(p, tuple) and p.packet_type == packet.EVENT:
                             ever[i].add(p.data[0])
+        if not delayed:
+            def pending(frames, P):
+                return [p for p in worlds.decode_frames(P, frames) if not isinstance(p, tuple)
+                        and p.packet_type in (packet.EVENT, packet.BINARY_EVENT) and p.id is not None]
+            for c in range(NCLIENTS):
+                pc = pending(cl.frames(c), cl.P)
+                pr = pending(ref.w.frames('c%d' % c), ref.w.P)
+                acked_c = [i for op_, via_, c_, tgt_, skip_, cons_ in plan if op_ == 6 and c_ == c]
+                if len(pc) < 2 or acked_c:
+                    continue
+                mode = final_mode
+                if mode == 0:
+                    continue
+                order = [0, 1] if mode == 1 else [1, 0]
+                for j in order:
+                    cl.ack(c, pc[j].id, ['late', pc[j].data[0]])
+                    ref.w.send('c%d' % c, ref.w.P(packet.ACK, data=['late', pr[j].data[0]], id=pr[j].id))
+                    cl.settle()
+                if sorted(cb_cl) != sorted(cb_ref):
+                    return Fail('cluster:callback', 'plan %r placement %r: acknowledgements in order %r: callbacks %r in the '
+                                'cluster, %r on a single server' % (plan, placement, order, cb_cl, cb_ref))
         if delayed:
             cl.settle()
             a = cl.take_all()
@@ -309,7 +333,7 @@ def parts(tier):
     return out
 
 
-CHECKS = [dict(name='cluster', fn=h, parts=parts, budget={'quick': 80, 'thorough': 1500}, per_path_s=30)]
+CHECKS = [dict(name='cluster', fn=h, parts=parts, budget={'quick': 180, 'thorough': 1500}, per_path_s=30)]
 
 META = dict(
     explanation='Two (thorough: three) real Servers with real PubSubManager / AsyncPubSubManager subclasses share one FIFO '
